@@ -308,7 +308,7 @@ class RepetitionExperimentKernel(IStabilizerIndexingKernel):
         exclusive_cycle_length: int = indexing_kernels[-1].stop_index - indexing_kernels[0].start_index
         inclusive_cycle_length: int = exclusive_cycle_length + 1
 
-        nr_experiment_repetitions: int = int(dataset_size / inclusive_cycle_length)
+        nr_experiment_repetitions: int = dataset_size // inclusive_cycle_length
         assert dataset_size == nr_experiment_repetitions * inclusive_cycle_length, f"Expects cycle-length * repetition number to be equal to total index size. By definition. Instead {dataset_size} != {nr_experiment_repetitions * inclusive_cycle_length}"
         return nr_experiment_repetitions
 
